@@ -550,6 +550,24 @@ def r6_disposable(ck, F):
         ck.violation('R6', 'R6 : sorenson type code', where_of(b), 'DisposablePFrame is produced for code %s (expected 2)' % (hit[1] if hit else 'none'))
 
 
+def r8_initial_state(ck, F):
+    ck.rule('R8', 'a new decoder has no last picture, no reference picture and an empty picture store (the base case of the induction over decode calls)')
+    from ..dataflow import expr_of, expr_str, ematch, ANY
+    b = F.body('h263_rs::decoder::state::H263State::new')
+    e = expr_of(F, b, {'o': 'copy', 'p': {'l': 0, 'proj': []}})
+    fl = [f.get('name') for f in F.adt('h263_rs::decoder::state::H263State')['variants'][0]['fields']]
+    want = {'decoder_options': ('param', 1, ()), 'last_picture': ('agg', 'None'), 'reference_picture': ('agg', 'None'),
+            'running_options': ('callp', 'PictureOption>::empty'), 'reference_states': ('callp', 'HashMap::<K, V>::new')}
+    bad = []
+    if e[0] != 'agg' or len(e) != 2 + len(fl): bad.append('H263State::new returns %s' % expr_str(e, b.get('debug', {}))[:200])
+    else:
+        for i, f in enumerate(fl):
+            if f not in want: bad.append('unexpected field %s' % f); continue
+            if ematch(want[f], e[2 + i]) is None: bad.append('%s := %s' % (f, expr_str(e[2 + i], b.get('debug', {}))[:80]))
+    if bad: ck.violation('R8', 'R8 : H263State::new : initial state', where_of(b), '; '.join(bad))
+    else: ck.ok('R8', 'H263State::new: options as given, last_picture = reference_picture = None, running options empty, store empty', where_of(b))
+
+
 def run(ck, F, tier):
     ck.explanation = ('C04 decided structurally on MIR: R1 accessor guard/key field agreement (contradiction rule) and prediction source; '
                       'R2 update rules of last_picture/reference_picture/reference_states by control dependence inside the final section of the '
@@ -568,3 +586,4 @@ def run(ck, F, tier):
         r4_key_aliasing(ck, F, start)
     r5_who_may_write(ck, F)
     r6_disposable(ck, F)
+    r8_initial_state(ck, F)
